@@ -8,6 +8,7 @@ type Check struct {
 var Checks = map[string]Check{
 	"C01": {Fn: CheckC01},
 	"C02": {Fn: CheckC02},
+	"C03": {Fn: CheckC03},
 	"C04": {Fn: CheckC04},
 	"C05": {Fn: CheckC05},
 	"C14": {Fn: CheckC14},
